@@ -356,6 +356,7 @@ func cmdCProbeSem(c *ctx) {
 		}
 	}
 	c.precedenceProbes(dialect, bnd)
+	c.constFoldProbes(dialect)
 }
 
 // precedence probes: builtin / unary operator applied to an un-named binary expression
@@ -370,6 +371,50 @@ func (c *ctx) precedenceProbes(dialect string, bnd []uint32) {
 					m := probeModuleX(k, n, "", false, false, f, inner)
 					c.probeCases(dialect, m, fmt.Sprintf("%s(%s) %s x%d", f, inner, k, n), bnd, f)
 				}
+			}
+		}
+	}
+}
+
+// constant-fold probes: an expression over `let`-bound literals and a named module constant.  The lowerer does not fold
+// it (a `let` is no constant expression) but a writer may (the GLSL writer evaluates expressions that involve a named
+// constant at write time): the value must be the wrapped WGSL run-time value, with truncating integer division at every
+// step.  Operands sit at the 32-bit boundaries.
+func (c *ctx) constFoldProbes(dialect string) {
+	lit := func(t *wty, v uint32) *wexpr { return &wexpr{k: "lit", ty: t, bits: v, konst: true} }
+	vr := func(t *wty, n string) *wexpr { return &wexpr{k: "var", ty: t, name: n} }
+	bin := func(t *wty, op string, a, b *wexpr) *wexpr { return &wexpr{k: "bin", ty: t, op: op, args: []*wexpr{a, b}} }
+	un := func(t *wty, op string, a *wexpr) *wexpr { return &wexpr{k: "un", ty: t, op: op, args: []*wexpr{a}} }
+	for _, t := range []*wty{tI32, tU32} {
+		vals := []uint32{0x80000000, 0x7fffffff, 0xffffffff, 7, 65536, 0x80000001}
+		ks := []uint32{3, 65536, 0x7fffffff, 2}
+		for vi, v := range vals {
+			for ki, kv := range ks {
+				if t.k == "u32" && (vi+ki)%2 == 1 {
+					continue // half the table for u32
+				}
+				x, k := vr(t, "x"), &wexpr{k: "var", ty: t, name: "KF", konst: true}
+				forms := []*wexpr{
+					bin(t, "-", bin(t, "-", un(t, "~", x), x), k),          // (~x - x) - K
+					bin(t, "*", bin(t, "/", bin(t, "+", x, k), lit(t, 2)), lit(t, 2)), // ((x + K) / 2) * 2
+					bin(t, "*", bin(t, "*", x, k), k),                        // (x * K) * K
+					bin(t, "+", bin(t, "+", x, k), x),                        // (x + K) + x
+					bin(t, "/", bin(t, "-", k, x), lit(t, 3)),                // (K - x) / 3
+				}
+				if t.k == "i32" {
+					forms = append(forms, bin(t, "-", un(t, "-", x), k)) // (-x) - K
+				}
+				m := &wmodule{wg: 1}
+				m.globals = []*wglobal{{name: "inp", space: "storage_r", ty: tU32, rt: true, binding: 0}, {name: "outp", space: "storage_rw", ty: tU32, rt: true, binding: 1}}
+				m.consts = []*wstmt{{k: "const", name: "KF", ty: t, e: lit(t, kv)}}
+				body := []*wstmt{{k: "let", name: "x", ty: t, e: lit(t, v)}}
+				for i, f := range forms {
+					st := encStores(f, t)
+					st[0].lhs.args[1].bits = uint32(i)
+					body = append(body, st...)
+				}
+				m.entry = &wfunc{name: "main", body: body}
+				c.probeCasesN(dialect, m, fmt.Sprintf("constfold %s x=%d K=%d", t.k, v, kv), []uint32{0}, "constfold", 1)
 			}
 		}
 	}
@@ -490,6 +535,11 @@ func probeModuleX(kind string, n int, op string, rhsU, resBool bool, fn, inner s
 }
 
 func (c *ctx) probeCases(dialect string, m *wmodule, label string, bnd []uint32, op string) {
+	c.probeCasesN(dialect, m, label, bnd, op, 10)
+}
+
+// probeCasesN: `inputs` input vectors per emitted variant.
+func (c *ctx) probeCasesN(dialect string, m *wmodule, label string, bnd []uint32, op string, inputs int) {
 	mod, _ := frontEnd(m.wgsl())
 	if mod == nil {
 		c.count("probe-rejected")
@@ -515,7 +565,7 @@ func (c *ctx) probeCases(dialect string, m *wmodule, label string, bnd []uint32,
 			c.line("cparse-errors.txt", q(perr.Error())+" "+q(text))
 			continue
 		}
-		for i := 0; i < 10; i++ {
+		for i := 0; i < inputs; i++ {
 			inp := make([]uint32, 16)
 			for j := range inp {
 				if c.chance(0.8) || strings.HasPrefix(op, "f2") {
